@@ -363,7 +363,7 @@ def run(ck, F):
         # keyed by what the function selects from, not by its name: the document's component registry, the XML tree, a WSDL collection
         reads_ = " ".join(str(s_["rv"]) for i_ in sorted(B.reach) for s_ in B.blocks[i_]["stmts"] if s_["k"] == "assign")
         over = []
-        if "'f': 'nodes'" in reads_:
+        if any(f"'f': '{f_}'" in reads_ for f_ in _registry_fields(F)):
             over.append("registry")
         if any((M.Body.callee_decl(t_) or "").endswith(("::descendants", "::children")) for _, t_ in B.calls()):
             over.append("xml")
@@ -379,7 +379,7 @@ def run(ck, F):
         reads = " ".join(f for i in sorted(B.reach) for s in B.blocks[i]["stmts"] if s["k"] == "assign"
                          for f in [str(s["rv"])] )
         typed = [c for c in ("soap_messages", "soap_ports", "soap_bindings") if f"'f': '{c}'" in reads]
-        if typed and "'f': 'nodes'" not in reads:
+        if typed and not any(f"'f': '{f_}'" in reads for f_ in _registry_fields(F)):
             ck.ok("R3", f"{short}:wsdl-collection", fb["span"],
                   f"{fname} selects from the typed collection {typed[0]} of the WSDL document (single definitions namespace; outside the claim)", fn=short)
             continue
@@ -774,3 +774,11 @@ def _named_kinds(F, ret_ty):
             if en is not None:
                 return sum(1 for v_ in en["variants"] if v_["fields"])
     return None
+
+
+def _registry_fields(F):
+    """the members of the document that hold the schema components (the list itself, an index of it by name ..): what a by-name lookup
+    of the registry reads"""
+    st = next((x for x in F.lib.items["structs"] if x["path"] == "model::doc::RustDocument"), None)
+    out = [f["name"] for f in (st["variants"][0]["fields"] if st else []) if "RustNode" in f["ty"]]
+    return out or ["nodes"]
